@@ -40,8 +40,14 @@ def native_replay(cls, history=False):
         rs = np.random.RandomState(5)
         bad = []
         shared = Cc() if history else None
-        for name, data in (('gamma(2)+1', rs.gamma(2.0, size=300) + 1), ('timestamps', 1.7e9 + 600 * rs.normal(size=300)),
-                           ('constant 3.0', np.full(50, 3.0)))[::-1 if history else 1]:
+        sets = (('gamma(2)+1', rs.gamma(2.0, size=300) + 1), ('timestamps', 1.7e9 + 600 * rs.normal(size=300)),
+                ('constant 3.0', np.full(50, 3.0)))
+        if cls == 'BetaUnivariate':
+            # scipy's four-parameter Beta MLE diverges on unbounded-looking data (scale ~ 1e-26, loc outside the data: the
+            # floats loc + scale * t collapse to loc) - replay this family on data of bounded support
+            sets = (('beta(2,5)*4+1', rs.beta(2.0, 5.0, size=300) * 4 + 1), ('beta(2,3)*50+1000', 1000 + 50 * rs.beta(2.0, 3.0, size=300)),
+                    ('constant 3.0', np.full(50, 3.0)))
+        for name, data in sets[::-1 if history else 1]:
             try:
                 m = shared if history else Cc()
                 m.fit(data)
